@@ -476,3 +476,4 @@ def mdc_unselect(chk, prog, R):
             chk.instance(R, '%s the ranking loop visits every row of the sorted table' % f.unit.where(rl))
         else:
             bad('rank-range', rl, 'the ranking loop starts at %s: it assumes where the selected object sorts, which depends on the metric' % (ri['init'] if ri else '?'))
+
